@@ -486,8 +486,10 @@ def gen_borehole_config(
     point_shift = 1000.0
 
     for _ in range(num_rows + 1):
-        # Row Defined by two points
-        if row_space[1] == 0:
+        # Row Defined by two points. Rows are vertical when cos(rotate) is negligible: rotate = -pi/2 gives
+        # cos = 6e-17, not 0, and a row of slope -8e15 through two points 1000 m apart intersects a vertical
+        # property edge at a garbage ordinate (catastrophic cancellation in vector_intersect).
+        if abs(row_space[1]) <= 1.0e-12 * abs(row_space[0]):
             row = [
                 row_point[0],
                 row_point[1],
